@@ -40,7 +40,8 @@ def case_st(draw):
     return {"ents": ents, "curdir": draw(st.one_of(st.sampled_from([e["dir"] for e in ents]), st.just(ord("$")))),
             "dest": draw(st.sampled_from(["dest", "dest/", "./dest", "ABS", "ABS/", "dest//", "../top/dest"])),
             # where the destination directory is and what it is called (one-character and nested names included)
-            "destdir": draw(st.sampled_from(["dest", "dest", "d", "out/d", "o/dd", "x/y/z", "out/d.e"])),
+            "destdir": draw(st.sampled_from(["dest", "dest", "d", "out/d", "o/dd", "x/y/z", "out/d.e", "my out", "sub/my out",
+                                             "a\tb"])),
             "cmd": draw(st.sampled_from(["extract-files", "extract-files", "extract-unused", "other"])),
             "gz": draw(st.integers(0, 4)) == 0, "asan": draw(st.integers(0, 5)) == 0}
 
@@ -77,7 +78,7 @@ class C12(CheckBase):
     rule = ("generated catalogues whose 7 name bytes and directory byte range over 0x01-0x7F with a bias to '/', '.', "
             "'..', leading '-', control characters and names such as ../../x, /abs, a/b; every command; destination "
             "given relative/absolute, with/without trailing slash, the directory itself called dest, d, out/d, o/dd, "
-            "x/y/z or out/d.e; sandbox case/top/{img,<destination>,sibling}+canaries.  "
+            "x/y/z, out/d.e, 'my out', 'sub/my out' or a<TAB>b; sandbox case/top/{img,<destination>,sibling}+canaries.  "
             "Oracle: snapshot (path, type, size, SHA-1, mode) of the whole sandbox before and after: image bytes "
             "identical; non-extract commands change nothing; extract commands only create regular files directly "
             "inside dest/.  Exit status is free.  Non-trivial: a name or directory byte that is '/' or a name that is "
